@@ -11,6 +11,7 @@
 
 enum { FT_FLIP = 0, FT_TRUNC, FT_BURST, FT_EXTEND, FT_MAGIC, FT_VERSION, FT_TORN, FT_FLIPRANGE, FT_TRUNCRANGE, FT_HDRBITS, FT_BYTESWEEP, FT_NKINDS };
 static const char *ft_name[] = { "flip", "trunc", "burst", "extend", "magic", "version", "torn", "fliprange", "truncrange", "hdrbits", "bytesweep" };
+#define SWEEP_MAX_FILE 16384
 typedef struct Fault { int kind; long a, b; unsigned long c; int via; } Fault;   /* via: 0 standalone, 1 daemon */
 typedef struct SPlan { char prog[32]; int tok; int nf; Fault f[64]; bool sweep; } SPlan;
 
@@ -32,7 +33,7 @@ static void plan_gen(SPlan *P, uint64_t seed, const RunOpts *o) {
         uint64_t idx = (seed - o->base) / 2;
         /* find file + chunk */
         for (int pass = 0; pass < 2; pass++) for (int i = 0; i < np; i++) {
-            Module *m = corpus_find(corpus_prog(i), pass); if (!m) continue;
+            Module *m = corpus_find(corpus_prog(i), pass); if (!m || m->n > SWEEP_MAX_FILE) continue;   /* the >64 KiB image is covered by the seeded kinds only */
             uint64_t bits = (uint64_t)(m->n - NVM_HEADER_SIZE) * 8; uint64_t chunks = (bits + 511) / 512;
             if (idx < chunks) {
                 snprintf(P->prog, sizeof P->prog, "%s", corpus_prog(i)); P->tok = pass;
@@ -72,7 +73,8 @@ static void plan_gen(SPlan *P, uint64_t seed, const RunOpts *o) {
     for (int i = 0; i < nsweep && P->nf < 64 && n > NVM_HEADER_SIZE + 1; i++) {
         Fault *f = &P->f[P->nf++]; memset(f, 0, sizeof *f);
         f->kind = FT_BYTESWEEP; f->a = (long)(NVM_HEADER_SIZE + sim_rndn((uint32_t)(n - NVM_HEADER_SIZE)));
-        f->b = f->a + (quick ? 128 : 256); if (f->b > (long)n) f->b = (long)n;
+        long win = quick ? 128 : 256; if (n > 16384) win = (long)(2000000 / n) + 1;   /* each candidate costs a checksum over the whole file */
+        f->b = f->a + win; if (f->b > (long)n) f->b = (long)n;
     }
 }
 static void plan_print(SPlan *P, uint64_t seed, Buf *b) {
@@ -294,7 +296,7 @@ static void fam_run(uint64_t seed, const RunOpts *o, Result *r) {
     probe(r, "fault_instances", n_inst); probe(r, "true_crc_collisions_skipped", n_collision); probe(r, "unchanged_skipped", n_unchanged);
     probe(r, "inbyte_bursts_offered_to_loader", n_prefiltered); probe(r, "inbyte_bursts_loader_accepted", n_prefilter_accepted);
     probe(r, "via_daemon", n_daemon); probe(r, "via_named_pipe", n_fifo); probe(r, "control_arm_ok", 1); probe(r, "exhaustive_sweep_chunks", P.sweep);
-    { uint64_t total = 0; for (int tk = 0; tk < 2; tk++) for (int i = 0; i < corpus_nprogs(); i++) { Module *cm = corpus_find(corpus_prog(i), tk); if (cm) total += ((uint64_t)(cm->n - NVM_HEADER_SIZE) * 8 + 511) / 512; }
+    { uint64_t total = 0; for (int tk = 0; tk < 2; tk++) for (int i = 0; i < corpus_nprogs(); i++) { Module *cm = corpus_find(corpus_prog(i), tk); if (cm && cm->n <= SWEEP_MAX_FILE) total += ((uint64_t)(cm->n - NVM_HEADER_SIZE) * 8 + 511) / 512; }
       buf_printf(&r->extra, "\"sweep_total_chunks\":%llu", (unsigned long long)total); }
     for (int k = 0; k < FT_NKINDS; k++) { char nm[32]; snprintf(nm, sizeof nm, "kind_%s", ft_name[k]); probe(r, nm, kinds_done[k]); }
 }
